@@ -448,8 +448,38 @@ def prefix_extractor_domain(ctx, prog):
     o.sites = n
 
 
+STORE_MUTATORS = {
+    # the store's own mutating entry points (NOT the batch's staging calls put_cf / insert / remove on the write batch object)
+    "rocksdb": r"^rust_rocksdb::db::DBCommon::<.*>::(write|write_opt|write_without_wal|put|put_opt|put_cf|put_cf_opt|delete|delete_opt|delete_cf|delete_cf_opt|"
+               r"merge|merge_opt|merge_cf|merge_cf_opt|delete_range_cf|delete_range_cf_opt|delete_file_in_range|delete_file_in_range_cf|ingest_external_file\w*)$",
+    "fjall": r"^fjall::batch::WriteBatch::commit$|^fjall::keyspace::Keyspace::(insert|remove|ingest\w*|clear)$|^fjall::\w+::\w*Tx\w*::(insert|remove|commit)$",
+}
+
+
+def store_written_only_by_commit(ctx, prog, tag, wb_type):
+    """A batch takes effect as a whole or not at all (and never before commit) only if nothing but `commit` moves data into
+    the store: a staging method (put / insert_member / consume_serialization_buffer) that writes to the store itself - a
+    `spill when large` backstop, a write-through shortcut - makes a prefix of the batch visible and durable while the batch
+    is still being built, and leaves it there when the batch is dropped."""
+    o = ctx.ob("C11.j", "%s/store-is-written-only-by-commit" % tag, "K7+K2", "every call of a mutating entry point of the store sits in <%s as WriteBatch>::commit" % wb_type)
+    rx = re.compile(STORE_MUTATORS[tag])
+    owner = "<%s as WriteBatch>::commit" % wb_type
+    n = 0
+    for b in prog.all_bodies(["qbice_storage"]):
+        for s_ in b.calls(lambda f, t: bool(rx.search(f["path"]) or rx.search(f.get("res_path", "")))):
+            n += 1
+            ctx.touch(b)
+            if b.name != owner:
+                ctx.fail(o, s_, "%s writes to the store directly (`%s`) outside %s: part of a batch becomes visible, and survives a crash or the batch being dropped, before "
+                         "the batch is committed" % (b.name, s_.node["fn"]["path"].rsplit("::", 1)[-1], owner))
+    o.sites = n
+    if n < 1:
+        ctx.fail(o, "(program)", "positive control silent: no store write found at all, not even in %s" % owner)
+
+
 def run(ctx):
     prog = ctx.prog
+    ctx.run_clause("C11.j", lambda c: store_written_only_by_commit(c, prog, "fjall", "FjallWriteBatch"))
     ctx.run_clause("C11.a", lambda c: backend_rules(c, prog, "Fjall", "Fjall", "fjall", "fjall"))
     ctx.run_clause("C11.b", lambda c: discriminant_table(c, prog))
     ctx.run_clause("C11.d", lambda c: column_kind_agreement(c, prog, "fjall", "fjall"))
@@ -468,6 +498,7 @@ def run(ctx):
         raise
     ctx.run_clause("C11.a", lambda c: backend_rules(c, rocks, "RocksDB", "RocksDB", "rocksdb", "rocksdb"))
     ctx.run_clause("C11.e", lambda c: upper_bound_tight(c, rocks))
+    ctx.run_clause("C11.j", lambda c: store_written_only_by_commit(c, rocks, "rocksdb", "RocksDBWriteBatch"))
     ctx.run_clause("C11.i", lambda c: prefix_extractor_domain(c, rocks))
     ctx.run_clause("C11.d", lambda c: column_kind_agreement(c, rocks, "rocksdb", "rocksdb"))
     ctx.run_clause("C11.f", lambda c: operation_order(c, rocks, "rocksdb", "rocksdb"))
